@@ -40,7 +40,7 @@ FamilyChanged(lbFam, clFam, pol) ==
 (* the controller has not loaded any configuration yet (c.pools == nil)      *)
 NOCFG == ""
 
-AllocKey(al, s) == IF al[s] = NULL THEN "" ELSE al[s].bk \o "|" \o al[s].sk
+AllocKey(al, s) == IF al[s] = NULL THEN "" ELSE al[s].bk \o al[s].sk   \* backend + sharing, no separator (as the code)
 
 (* ---- convergeBalancer ------------------------------------------------- *)
 (* Input: layout L (the controller's pools), memory al, service s, object   *)
